@@ -26,6 +26,8 @@ EXTRA_DECLS = [
     ("struct X13 { char a; struct __attribute__((aligned(16))) { char p; } in; char z; };", ["a", "in", "z"]),
     ("union X14 { char a; struct { char p; long q; } s; short h[5]; };", ["a", "s", "h"]),
     ("struct X15 { _Bool b; enum { K1, K2 } e; char c; float f; double d; void *p; };", ["b", "e", "c", "f", "d", "p"]),
+    ("struct X16 { char a; _Alignas(16) _Alignas(4) char b; _Alignas(2) _Alignas(8) char c; _Alignas(int) _Alignas(1) char d; };", ["a", "b", "c", "d"]),
+    ("union X17 { char a; _Alignas(8) _Alignas(2) short s; };", ["a", "s"]),
 ]
 
 
